@@ -4,8 +4,10 @@ package main
 // read from the source with go/ast and evaluated as integer constant expressions.
 
 import (
+	"bytes"
 	"fmt"
 	"go/ast"
+	"go/printer"
 	"go/token"
 	"math/big"
 )
@@ -80,6 +82,61 @@ func genLimits(repo string) (string, error) {
 	if err != nil {
 		return "", err
 	}
-	return fmt.Sprintf("(* pkg/chart/v2/loader/archive.go *)\nDefinition max_decompressed_chart_size : Z := %s%%Z.\nDefinition max_decompressed_file_size : Z := %s%%Z.\n",
-		total.String(), file.String()), nil
+	// the comparison operators of the size checks, so that a flipped operator breaks a proof
+	// obligation (Props/C16.v: C16_limit_operators) and not only the correspondence run
+	fset := token.NewFileSet()
+	ops := []struct{ name, fn, lhs, rhs, file string }{
+		{"op_entry_vs_remaining", "LoadArchiveFiles", "hd.Size", "remainingSize", "pkg/chart/v2/loader/archive.go"},
+		{"op_entry_vs_file_limit", "LoadArchiveFiles", "hd.Size", "MaxDecompressedFileSize", "pkg/chart/v2/loader/archive.go"},
+		{"op_short_read", "LoadArchiveFiles", "bytesWritten", "hd.Size", "pkg/chart/v2/loader/archive.go"},
+		{"op_budget_exhausted", "LoadArchiveFiles", "remainingSize", "0", "pkg/chart/v2/loader/archive.go"},
+		{"op_dir_file_vs_limit", "LoadDir", "fi.Size()", "MaxDecompressedFileSize", "pkg/chart/v2/loader/directory.go"},
+	}
+	out := fmt.Sprintf("(* pkg/chart/v2/loader/archive.go *)\nDefinition max_decompressed_chart_size : Z := %s%%Z.\nDefinition max_decompressed_file_size : Z := %s%%Z.\n\n(* comparison operators of the size checks, as written in the source *)\n",
+		total.String(), file.String())
+	for _, o := range ops {
+		pf, _, err := parseFile(repo, o.file)
+		if err != nil {
+			return "", err
+		}
+		op, n := findComparison(fset, pf, o.fn, o.lhs, o.rhs)
+		if n != 1 {
+			return "", fmt.Errorf("%s: expected exactly one comparison %s ? %s in %s, found %d", o.name, o.lhs, o.rhs, o.fn, n)
+		}
+		out += fmt.Sprintf("Definition %s : string := %q.\n", o.name, op)
+	}
+	return out, nil
+}
+
+func exprText(fset *token.FileSet, e ast.Expr) string {
+	var b bytes.Buffer
+	printer.Fprint(&b, fset, e)
+	return b.String()
+}
+
+// findComparison returns the operator of the comparison `lhs OP rhs` inside function fn
+// (searched in every expression, closures included) and how many such comparisons exist.
+func findComparison(fset *token.FileSet, f *ast.File, fn, lhs, rhs string) (string, int) {
+	op, n := "", 0
+	for _, d := range f.Decls {
+		fd, ok := d.(*ast.FuncDecl)
+		if !ok || fd.Name.Name != fn || fd.Body == nil {
+			continue
+		}
+		ast.Inspect(fd.Body, func(nd ast.Node) bool {
+			be, ok := nd.(*ast.BinaryExpr)
+			if !ok {
+				return true
+			}
+			switch be.Op {
+			case token.LSS, token.GTR, token.LEQ, token.GEQ, token.EQL, token.NEQ:
+				if exprText(fset, be.X) == lhs && exprText(fset, be.Y) == rhs {
+					op = be.Op.String()
+					n++
+				}
+			}
+			return true
+		})
+	}
+	return op, n
 }
